@@ -61,6 +61,7 @@ KERNELS = {
     "merge_journalled_entries": {"owner": "C17", "mutated": [5]},              # returns None: the result is `dest`
     "merge_indexed_journalled_entries_count": {"owner": "C17"},
     "merge_indexed_journalled_entries": {"owner": "C17", "mutated": [7, 8]},   # returns None: (dest_inds, dest_vals)
+    "_apply_spans_concat_2": {"owner": "C16", "mutated": [3, 4]},             # (s + 1, d_index_i, d_index_v), dest_index, dest_values
     "categorical_transform": {"owner": "C06", "mutated": [0]},                 # returns None: the result is `chunk`
     "leaky_categorical_transform": {"owner": "C06", "mutated": [0, 1, 2]},     # chunk, freetext_indices, freetext_values
     "fixed_string_transform": {"owner": "C06", "mutated": [6]},                # returns None: the result is `memory`
@@ -889,6 +890,117 @@ def random_c06(rng, n_cases):
     return out
 
 
+# ----------------------------------------------------------------------------------------------------------------------
+# C16: _apply_spans_concat_2 on the (offsets, bytes) arrays of a column, reusable destination buffers
+# ----------------------------------------------------------------------------------------------------------------------
+
+def concat_safe(spans, idx, vals, cap_i, cap_v, max_i, max_v, sep, dlm, sp_start):
+    """every subscript of _apply_spans_concat_2 is in range, and the loop runs at least once (else it reads the unbound `s`)"""
+    d_i, d_v = (1, 0) if sp_start == 0 else (0, 0)
+    sp_end = len(spans) - 1
+    if sp_start >= sp_end or sp_start < 0:
+        return False
+    ok = lambda a, n: 0 <= a < n                      # noqa: E731  (no negative subscripts in the safe stream)
+
+    def emit_row(a, b, delta):
+        flag = False
+        for i in range(a, b):
+            if not ok(i, len(vals)):
+                return None
+            flag = flag or vals[i] in (sep, dlm)
+        n = (2 if flag else 0) + sum(2 if vals[i] == dlm else 1 for i in range(a, b))
+        if n and not ok(d_v + delta + n - 1, cap_v):
+            return None
+        return delta + n
+    for s in range(sp_start, sp_end):
+        if not (ok(s + 1, len(spans)) and ok(spans[s], len(idx)) and ok(spans[s + 1], len(idx))):
+            return False
+        cur, nxt = spans[s], spans[s + 1]
+        a, b = idx[cur], idx[nxt]
+        ne = 0
+        if nxt - cur == 1:
+            ne = 1 if b - a > 0 else 0
+        elif nxt - cur > 1:
+            for e in range(cur, nxt):
+                if not ok(e + 1, len(idx)):
+                    return False
+                ne += idx[e + 1] - idx[e] > 0
+        delta = 0
+        if ne == 1:
+            delta = emit_row(a, b, 0)
+            if delta is None:
+                return False
+        elif ne > 1:
+            prev_empty = True
+            for e in range(cur, nxt):
+                x, y = idx[e], idx[e + 1]
+                if not prev_empty and y != x and e > cur:
+                    if not ok(d_v + delta, cap_v):
+                        return False
+                    delta += 1
+                prev_empty = prev_empty and y == x
+                delta = emit_row(x, y, delta)
+                if delta is None:
+                    return False
+        d_v += delta
+        if not ok(d_i, cap_i):
+            return False
+        d_i += 1
+        if d_i >= max_i or d_v >= max_v:
+            break
+    return True
+
+
+def concat_gcase(spans, idx, vals, cap_i, cap_v, max_i, max_v, sp_start, dest_start_v, index0, frm):
+    I = lambda v: {"int": int(v)}                     # noqa: E731,E741
+    return gcase("_apply_spans_concat_2",
+                 [arr(spans), arr(idx), arr(vals), arr([index0] * cap_i), arr([0] * cap_v), I(max_i), I(max_v), I(44), I(34),
+                  I(sp_start), I(dest_start_v)],
+                 unsafe=not concat_safe(spans, idx, vals, cap_i, cap_v, max_i, max_v, 44, 34, sp_start), _from=frm)
+
+
+def derive_c16(case):
+    if case.get("op") != "concat_kernel":
+        return None
+    idx, vals = [0], []
+    for st in case["strs"]:
+        vals.extend(st.encode("utf-8"))
+        idx.append(len(vals))
+    return concat_gcase(case["spans"], idx, vals, case["cap_i"], case["cap_v"], case["max_i"], case["max_v"], case["sp_start"],
+                        case["dest_start_v"], case["index0"], "C16")
+
+
+def random_c16(rng, n_cases):
+    out = []
+    words = [b"", b"", b"a", b"b,c", b'd"e', b'"', b",", b"xy", b'""', b"a,\"b"]
+    for t in range(n_cases):
+        n = rng.randrange(0, 9)
+        rows = [rng.choice(words) for _ in range(n)]
+        idx, vals = [0], []
+        for r in rows:
+            vals.extend(r)
+            idx.append(len(vals))
+        what = rng.randrange(12)
+        if what < 8:
+            cuts = sorted(rng.sample(range(1, n), rng.randrange(0, n))) if n > 1 else []
+            spans = [0] + cuts + ([n] if n else [])
+        elif what < 10:
+            spans = sorted(rng.randrange(0, n + 1) for _ in range(rng.randrange(0, n + 3)))          # empty spans
+        else:
+            spans = [rng.randrange(0, n + 2) for _ in range(rng.randrange(0, 6))]                     # inverted / beyond
+        m = 2 * len(vals) + 3 * n + 2
+        sp_start = rng.randrange(0, max(len(spans) - 1, 1)) if rng.random() < 0.9 else len(spans)
+        max_i = rng.randrange(1, 6)
+        cap_i = max_i + rng.randrange(0, 3) if rng.random() < 0.9 else rng.randrange(0, max_i + 1)
+        max_v = rng.randrange(0, m + 2)
+        cap_v = max_v + m if rng.random() < 0.85 else rng.randrange(0, m + 1)
+        if what == 11:
+            vals = vals[:rng.randrange(0, len(vals) + 1)]
+        out.append(concat_gcase(spans, idx, vals, cap_i, cap_v, max_i, max_v, sp_start, rng.choice([0, 0, 1, 7, 1000]),
+                                rng.choice([0, 0, 5]), "random"))
+    return out
+
+
 def random_c19(rng, n_cases):
     out = []
     for t in range(n_cases):
@@ -917,8 +1029,8 @@ def random_c19(rng, n_cases):
     return out
 
 
-DERIVE = {"C08": derive_c08, "C09": derive_c09, "C04": derive_c04}
-RANDOM = {"C06": random_c06, "C08": random_c08, "C09": random_c09, "C04": random_c04, "C03": random_c03, "C17": random_c17, "C19": random_c19}
+DERIVE = {"C08": derive_c08, "C09": derive_c09, "C04": derive_c04, "C16": derive_c16}
+RANDOM = {"C06": random_c06, "C16": random_c16, "C08": random_c08, "C09": random_c09, "C04": random_c04, "C03": random_c03, "C17": random_c17, "C19": random_c19}
 
 
 def extra_cases(owner, cases, tier, rng):
